@@ -99,3 +99,25 @@ Definition semi_tokens (c : case) : list Z := outcome_tokens (model_semi c).
 (* the naive model as it was before fix F11, for the seeded-defect demonstration *)
 Definition model_naive_prefix (c : case) : outcome (list fact) :=
   naive_program_prefix (Z.to_nat (c_fuel c)) (c_prog c) (c_layers c) (c_store c) (c_init c).
+
+(* ---- refutation witness material for Props/C20.v one_delta_rule_per_predicate_refuted
+   (added after seeded change C20-1): makeDeltaRules :384 emitting only ONE delta rule per
+   distinct body predicate of a clause instead of one per occurrence. `seen` = the stratum
+   predicates that already got their delta position in this body. *)
+Fixpoint delta_positions_once (ps seen : list Z) (k : nat) (b : list premise) : list nat :=
+  match b with
+  | [] => []
+  | PAtom a :: b' =>
+      if memZ (apred a) ps && negb (memZ (apred a) seen)
+      then k :: delta_positions_once ps (apred a :: seen) (S k) b'
+      else delta_positions_once ps seen (S k) b'
+  | _ :: b' => delta_positions_once ps seen (S k) b'
+  end.
+
+Definition delta_rules_once (P : list clause) (ps dps : list Z) : list (clause * nat) :=
+  flat_map (fun c => map (fun i => (c, i)) (delta_positions_once ps [] 0 (cbody c))) (rules_of P dps).
+
+Definition eval_program_once (fuel : nat) (P : list clause) (layers : list (list Z))
+           (store init : list fact) : outcome (list fact) :=
+  eval_strata fuel (map (fun ps => mkStratum (rules_of P ps) (delta_rules_once P ps ps)) layers)
+              (add_all store init).
